@@ -242,6 +242,10 @@ func (workingMem *WorkingMemory) Clone(cloneTable *pkg.CloneTable) (*WorkingMemo
 func (workingMem *WorkingMemory) Prune(knowledgeBase *KnowledgeBase) {
 	live := &Catalog{}
 	for _, entry := range knowledgeBase.RuleEntries {
+		if entry.Deleted {
+
+			continue
+		}
 		if entry.WhenScope != nil {
 			entry.WhenScope.MakeCatalog(live)
 		}
